@@ -22,6 +22,15 @@ TIES_S = {
     "multiPolygonReader_rel": "multiPolygonReader", "geometryCollectionReader_rel": "geometryCollectionReader",
     "wkbReaders_rel": "init (the dispatch table wkbReaders)", "Read_rel": "Read", "readS_rel": "Read (the recursion through the readers)",
 }
+# T1, writing path call by call: one tie lemma per writer function regenerated a second time with the io.Writer as any
+# writer state machine (lean/GeomV/C05/TieSink.lean, namespace GenW)
+TIES_W = {
+    "tie_writePointW": "writePoint", "tie_writePointsW": "writePoints", "tie_writePointssW": "writePointss",
+    "tie_writeLineStringW": "writeLineString", "tie_writePolygonW": "writePolygon", "tie_writeMultiPointW": "writeMultiPoint",
+    "tie_writeMultiLineStringW": "writeMultiLineString", "tie_writeMultiPolygonW": "writeMultiPolygon",
+    "tie_writeGeometryCollectionW": "writeGeometryCollection", "tie_WriteW": "Write", "tie_writeW": "Write (the recursion through the writers)",
+}
+SINK_SRC = ["C05_sink_src", "C05_sink_ok_src", "C05_sink_prefix_src", "C05_sink_limit_src", "C05_sink_unsupported_src"]
 STREAM_GEN = ["C05_stream_gen", "C05_stream_gen_model", "C05_stream_read_gen", "C05_stream_truncated_gen"]
 # phase 4: io.ReadFull over scripts is additive (FillAdd.lean); the regenerated streaming Read = the hand-written one (TieExact.lean)
 FILLADD = ["C05_readfull_additive", "C05_reader_state_unique"]
@@ -37,7 +46,7 @@ BIN = ["C05_bin_uint32", "C05_bin_uint64", "C05_bin_put", "C05_bin_readU32", "C0
 STREAM = ["C05_readfull", "C05_stream_model", "C05_stream_read", "C05_read_sequence", "C05_truncated", "C05_stream_truncated"]
 CFG = {
     "id": "C05",
-    "lean_modules": ["GeomV.C05.Proofs", "GeomV.C05.ProofsStream", "GeomV.C05.ProofsCount", "GeomV.C05.ProofsBin", "GeomV.C05.ProofsFuel", "GeomV.C05.ProofsSink", "GeomV.C05.FillAdd", "GeomV.C05.Tie", "GeomV.C05.TieStream", "GeomV.C05.TieGenS", "GeomV.C05.TieExact"],
+    "lean_modules": ["GeomV.C05.Proofs", "GeomV.C05.ProofsStream", "GeomV.C05.ProofsCount", "GeomV.C05.ProofsBin", "GeomV.C05.ProofsFuel", "GeomV.C05.ProofsSink", "GeomV.C05.FillAdd", "GeomV.C05.Tie", "GeomV.C05.TieStream", "GeomV.C05.TieGenS", "GeomV.C05.TieExact", "GeomV.C05.TieSink"],
     "exe": "geomv_c05",
     "go_cmd": "c05",
     "stages": ["go:gen", "lean:prep", "go:impl", "lean:judge"],
@@ -46,7 +55,8 @@ CFG = {
                                 + [n for n in TIES if n != "tie_dispatch"] + SRC]
                  + [T + "Stream." + n for n in STREAM] + [T + n for n in COUNT] + [T + "BinStd." + n for n in BIN]
                  + [T + "GenS." + n for n in TIES_S] + [T + n for n in STREAM_GEN] + [T + "Fuel." + n for n in FUEL] + [T + "Sink." + n for n in SINK]
-                 + [T + "Stream." + n for n in FILLADD] + [T + n for n in EXACT],
+                 + [T + "Stream." + n for n in FILLADD] + [T + n for n in EXACT]
+                 + [T + "GenW." + n for n in TIES_W] + [T + n for n in SINK_SRC],
     "trusted_base": [
         "Lean 4.33.0 kernel; axioms of every theorem printed by #print axioms must be within {propext, Classical.choice, Quot.sound}",
         "T1: harness/cmd/c05/extract.go (go/ast, ~1900 lines, statement-level, subset listed in its header) regenerates lean/GeomV/C05/Gen.lean from "
@@ -152,17 +162,17 @@ def pregen(check):
             drop("T1 tie: Go function(s) outside the translatable subset, the regenerated Gen.lean does not elaborate: "
                  + " | ".join(p.stderr.strip().splitlines())[:900])
             return
-        b = subprocess.run(["lake", "build", T + "Tie", T + "TieGenS", T + "TieExact"], cwd=vcheck.LEAN, stdout=subprocess.PIPE, stderr=subprocess.STDOUT, text=True)
+        b = subprocess.run(["lake", "build", T + "Tie", T + "TieGenS", T + "TieExact", T + "TieSink"], cwd=vcheck.LEAN, stdout=subprocess.PIPE, stderr=subprocess.STDOUT, text=True)
     if b.returncode == 0:
         return
     open(os.path.join(check.rundir, "tie.log"), "w").write(b.stdout)
-    errs = re.findall(r"error: (?:\./)?GeomV/C05/(Gen|TieGenS|TieExact|Tie)\.lean:(\d+):\d+: (.*)", b.stdout)
+    errs = re.findall(r"error: (?:\./)?GeomV/C05/(Gen|TieGenS|TieExact|TieSink|Tie)\.lean:(\d+):\d+: (.*)", b.stdout)
     if any(f == "Gen" for f, _, _ in errs) or not errs:
         drop("T1 tie: the regenerated Gen.lean does not elaborate: " + " | ".join(m for f, _, m in errs if f == "Gen")[:600]
              + ("" if errs else b.stdout[-600:]))
         return
     # name the tie lemma(s) whose proof failed: the last `theorem` at or before each error line
-    srcs = {f: open(os.path.join(vcheck.LEAN, "GeomV", "C05", f + ".lean")).read().split("\n") for f in ("Tie", "TieGenS", "TieExact")}
+    srcs = {f: open(os.path.join(vcheck.LEAN, "GeomV", "C05", f + ".lean")).read().split("\n") for f in ("Tie", "TieGenS", "TieExact", "TieSink")}
     bad = []
     for fl, ln, _ in errs:
         src = srcs[fl]
@@ -174,7 +184,7 @@ def pregen(check):
                 break
         if name not in bad:
             bad.append(name)
-    drop("T1 tie broken: " + "; ".join("%s — the Go function %s no longer denotes the model's function" % (n, TIES.get(n, TIES_S[n] + " (streaming path)" if n in TIES_S else "(helper lemma)")) for n in bad))
+    drop("T1 tie broken: " + "; ".join("%s — the Go function %s no longer denotes the model's function" % (n, TIES.get(n, TIES_S[n] + " (streaming path)" if n in TIES_S else TIES_W[n] + " (call-by-call writing path)" if n in TIES_W else "(helper lemma)")) for n in bad))
 
 
 def post(check, pairs, stats):
